@@ -275,11 +275,25 @@ func ruleR19c(h *H) {
 			send = action
 		}
 		var selCalls []ssa.Value
-		ir.Instrs(fn, func(in ssa.Instruction) {
-			if c, ok := in.(*ssa.Call); ok && c.Call.IsInvoke() && c.Call.Method.Name() == "Select" {
-				selCalls = append(selCalls, c)
+		collectSel := func(f *ssa.Function) {
+			selCalls = nil
+			ir.Instrs(f, func(in ssa.Instruction) {
+				if c, ok := in.(*ssa.Call); ok && c.Call.IsInvoke() && c.Call.Method.Name() == "Select" {
+					selCalls = append(selCalls, c)
+				}
+			})
+		}
+		collectSel(fn)
+		// the emission may sit in an extracted helper ("propose the swap"): the decision is its caller's
+		for lvl := 0; lvl < 2 && len(selCalls) == 0; lvl++ {
+			site := ir.SingleCallSite(fn)
+			if site == nil {
+				break
 			}
-		})
+			fn, send = site.Parent(), site
+			collectSel(fn)
+			h.Fn(ir.FuncName(fn))
+		}
 		isTarget := func(v ssa.Value) bool {
 			cv := ir.Canon(v)
 			if ex, ok := cv.(*ssa.Extract); ok {
@@ -308,20 +322,22 @@ func ruleR19c(h *H) {
 		h.Verdict(okp && len(edges) > 0, rule, "swap target differs from the replaced node in "+ir.FuncName(fn), h.pos(send), "the action is only emitted when target != from", "a swap can be proposed whose target is the node being replaced", witness(path))
 		// selected excludes the from node: the Add into the selected set is guarded by id != fromId
 		adds := 0
-		ir.Instrs(fn, func(in ssa.Instruction) {
-			c := ir.CallOf(in)
-			if c == nil || !isSetMethod(c, "Add") {
-				return
-			}
-			adds++
-			good := false
-			for _, g := range ir.CmpGuards(in) {
-				if g.Op == token.NEQ {
-					good = true
+		for _, hf := range helperFuncs(fn) {
+			ir.Instrs(hf, func(in ssa.Instruction) {
+				c := ir.CallOf(in)
+				if c == nil || !isSetMethod(c, "Add") {
+					return
 				}
-			}
-			h.Verdict(good, rule, fmt.Sprintf("selected set excludes the replaced node #%d in %s", adds, ir.FuncName(fn)), h.pos(in), "ensemble members are added unless they are the node being replaced", "every ensemble member (including the node to replace) is marked as selected, or none is: the replacement could be a current member")
-		})
+				adds++
+				good := false
+				for _, g := range ir.CmpGuards(in) {
+					if g.Op == token.NEQ {
+						good = true
+					}
+				}
+				h.Verdict(good, rule, fmt.Sprintf("selected set excludes the replaced node #%d in %s", adds, ir.FuncName(fn)), h.pos(in), "ensemble members are added unless they are the node being replaced", "every ensemble member (including the node to replace) is marked as selected, or none is: the replacement could be a current member")
+			})
+		}
 	}
 	if n == 0 {
 		h.Anchor(rule, "the balancer function emitting SwapNodeAction")
